@@ -107,6 +107,7 @@ class CacheWorld(object):
       s.file_p.setdefault('i', 0.4)
     s.p_unlocked = dict(self.plan.get('p_unlocked') or {})
     s.stall = self.plan.get('stall')
+    self.r.shutdown_gaps = bool(self.plan.get('shutdown_gaps'))
     for pat, pp in (self.plan.get('hot') or []):
       s.heat(pat, pp)
     if self.plan.get('opcode'):
